@@ -13,11 +13,18 @@ def generate(ctx, sizes, quick):
     allr = []
     for si, n in enumerate(sizes, start=1):
         restarts = "{0, %d}" % (n // 2) if quick else "{%s}" % ", ".join(str(i) for i in range(n))
-        dups = "{0}" if quick else "{0, 1, %d}" % n
-        r = ctx.tlc_gen("IndexOOOGen", "IndexOOOGen.cfg", overrides={"Shape": si, "N": n, "Restarts": restarts, "Dups": dups}, tag="RPL")
+        # a second delivery of any blob at any later position (also while it still waits for a dependency)
+        dups = "{%s}" % ", ".join(str(i) for i in range(n + 1))
+        r = ctx.tlc_gen("IndexOOOGen", "IndexOOOGen.cfg", overrides={"Shape": si, "N": n, "Restarts": restarts, "Dups": dups, "DupPos": '"any"'}, tag="RPL")
+        # the plain arrival orders (no duplicate) stay in every sample; the duplicated ones fill the rest
+        plain = [x for x in r if len(x["order"]) == n]
+        duped = [x for x in r if len(x["order"]) != n]
+        if quick and len(plain) > 160:
+            plain = rng.sample(plain, 160)
+        r = plain + duped
         cap = 260 if quick else 1500
         if len(r) > cap:
-            r = rng.sample(r, cap)
+            r = plain[:cap] + rng.sample(duped, max(0, cap - len(plain)))
         allr += r
     return allr
 
